@@ -164,7 +164,7 @@ def gen(fn, tier):
             st = math.sin(tth / 2)
             for d in alph.directions(2 if tier == "quick" else 3):
                 g = np.array(d, float) / math.sqrt(sum(x * x for x in d)) * st
-                gl = g * 0.37
+                gl = g * (0.37 if (tthd in (0.5, 30, 150)) else 3.7)  # laue normalises g itself: feed it shorter AND longer vectors
                 if fn == "find_omega":
                     yield ((tthd, d), (g, tth), (gl, tth), ("omega", g, st, None))
                 elif fn == "find_omega_wedge":
